@@ -295,10 +295,17 @@ def run(rep: Report, tier: str, seed: int) -> None:
     files = dict(INPUTS["T9-directory-order"][0])
     files["pk/f1.py"] = INPUTS["T8-foreign-classes"][0]["pk/m1.py"]
     files["pk/f2.py"] = INPUTS["T8-foreign-classes"][0]["pk/m2.py"]
+    files["pk/opt.py"] = "def opt(x: int = None) -> int:  # type: ignore[assignment]\n    return 1\n"
     d = fresh_dir("w")
     try:
         write_tree(d / "in", files)
         (d / "elsewhere").mkdir()
+        # a working directory that holds configuration files of the type checker (they change how 'x: int = None' is read)
+        (d / "cfg").mkdir()
+        (d / "cfg" / "mypy.ini").write_text("[mypy]\nimplicit_optional = True\n")
+        (d / "cfg2" / "deep").mkdir(parents=True)
+        (d / "cfg2" / "setup.cfg").write_text("[mypy]\nimplicit_optional = True\n")
+        (d / "cfg2" / ".git").mkdir()
         variants = [
             ("abs", str(d / "in" / "pk"), str(d / "o1"), d, d / "o1", False),
             ("rel", "in/pk", "o2", d, d / "o2", False),
@@ -306,6 +313,8 @@ def run(rep: Report, tier: str, seed: int) -> None:
             ("dotdot", "in/../in/pk", "elsewhere/../o4", d, d / "o4", False),
             ("cwd-elsewhere", str(d / "in" / "pk"), "../o5", d / "elsewhere", d / "o5", False),
             ("cwd-src-parent", "pk", str(d / "o6"), d / "in", d / "o6", False),
+            ("cwd-with-mypy-ini", str(d / "in" / "pk"), str(d / "o9"), d / "cfg", d / "o9", False),
+            ("cwd-below-setup-cfg", str(d / "in" / "pk"), str(d / "o10"), d / "cfg2" / "deep", d / "o10", False),
             ("cache-first", "in/pk", "o7", d, d / "o7", True),
             ("cache-second", "in/pk", "o8", d, d / "o8", True),
         ]
@@ -338,7 +347,7 @@ def run(rep: Report, tier: str, seed: int) -> None:
     rep.rule = (
         "11 inputs with forced ties (two equal-depth re-exporters, equal short names, three TypeVars, inferred tuple results, a module star-imported by several packages, 3-member unions/literals, 4 TODO markers, foreign classes from several libraries, modules spread over directories): "
         f"every schedule with <= 1 deviation (thorough: <= 2 on 4 inputs, second option set, every 9th doubly re-exporting C03 tree) at the choice points 'iteration of a tool-built set with >=2 elements' and 'listing of a package directory with >=2 entries' (all n! orders for n<=3, rotations+reversal above); "
-        f"{K} real interpreter runs per input with PYTHONHASHSEED=0..{K - 1}; 9 real runs over path spellings / working directories / repetition with mypy's cache / repetition into the same output directory; distinct = one exploration per (input, options)"
+        f"{K} real interpreter runs per input with PYTHONHASHSEED=0..{K - 1}; 11 real runs over path spellings / working directories (also ones holding type-checker configuration files) / repetition with mypy's cache / repetition into the same output directory; distinct = one exploration per (input, options)"
     )
     rep.assumptions = [
         "sets are owned by injecting an order-controlled subclass under the name 'set' into the tool's modules; the one set comprehension in the sources (inventory in evidence) is sorted by the tool on the next line",
